@@ -7,6 +7,8 @@ QDatas == { << >>, <<1>> }
 QTimes == {"T1"}
 NoTimes == {}
 OneName == {"a"}
+\* names one of which is a string prefix of the other: "a" vs "ab" (element boundaries, not string prefixes, decide)
+PNames == {"a", "ab"}
 TTimes == {"T1", "T2"}
 OneData == { <<1>> }
 ==========================================================================
